@@ -22,6 +22,11 @@ func (r *vhRecordReader) Read(p []byte) (int, error) {
 	if len(r.recs) == 0 {
 		return 0, io.EOF
 	}
+	if len(p) < len(r.recs[0]) {
+		// the real readers cannot deliver a record into a smaller buffer either
+		// (snapshot.Reader: io.ErrShortBuffer; snapshotFile.Read: slice out of range)
+		return 0, io.ErrShortBuffer
+	}
 	n := copy(p, r.recs[0])
 	r.recs = r.recs[1:]
 	return n, nil
@@ -33,7 +38,7 @@ func (r *vhRecordReader) Read(p []byte) (int, error) {
 // empty table for an arbitrary in-memory-log-size setting (incl. 0 =
 // unlimited): the table then holds exactly the captured pairs, nothing else,
 // and its recorded leader index is the declared index.
-func VH_C07_restore(k int) {
+func VH_C07_restore(k, bigKiB int) {
 	nh := verif.NewNodeHost()
 	rs, _, _ := kv.VHNewStoreOn(nh, 1000)
 	f := fsm.VHNewFSM(nil)
@@ -45,6 +50,11 @@ func VH_C07_restore(k int) {
 	var recs [][]byte
 	for i := 0; i < k; i++ {
 		key, val := verif.Bytes(1), verif.Bytes(1)
+		if i == 0 && bigKiB > 0 {
+			// a value of the maximum accepted size (table.MaxValueLen): the record is a little larger
+			val = make([]byte, bigKiB<<10)
+			val[0] = verif.Byte()
+		}
 		if i > 0 {
 			verif.Assume(bytes.Compare(keys[i-1], key) < 0) // a snapshot stream is in key order
 		}
